@@ -116,7 +116,7 @@ def run_benign(names):
 
 
 def run(names, tier, all_props):
-    scratch = "/tmp/nsim-seeded"
+    scratch = f"/tmp/nsim-seeded-{os.getpid()}"
     results = []
     try:
         for name in names or sorted(os.listdir(SEEDED)):
